@@ -19,6 +19,7 @@ import traceback
 
 VERIF = os.path.dirname(os.path.dirname(os.path.abspath(__file__)))
 REPO = os.environ.get("VERIF_REPO", "/repo")
+OUT = os.environ.get("VERIF_OUT", VERIF)  # evidence/ and replays/ go here (selftest redirects it)
 
 
 # ----------------------------------------------------------------------------
@@ -128,7 +129,7 @@ def check_property(prop, targets, *, tier="quick", assumptions=(), trusted_base=
     results = run_targets(targets)
     known = load_known(prop)
     by_id = {t.id: t for t in targets}
-    replay_dir = os.path.join(VERIF, "replays", prop)
+    replay_dir = os.path.join(OUT, "replays", prop)
     os.makedirs(replay_dir, exist_ok=True)
     if not only:
         for fn in os.listdir(replay_dir):
@@ -281,8 +282,8 @@ def check_property(prop, targets, *, tier="quick", assumptions=(), trusted_base=
         "wall_s": round(wall, 2),
         "violations": len(vio_lines),
     }
-    os.makedirs(os.path.join(VERIF, "evidence"), exist_ok=True)
-    with open(os.path.join(VERIF, "evidence", f"{prop}.json"), "w") as f:
+    os.makedirs(os.path.join(OUT, "evidence"), exist_ok=True)
+    with open(os.path.join(OUT, "evidence", f"{prop}.json"), "w") as f:
         json.dump(ev, f, indent=1, default=str)
     print(f"SUMMARY property={prop} tier={tier} targets={len(targets)} obligations={n_obl} discharged={n_dis} "
           f"bounded={n_bounded_dis}/{n_bounded_obl} known_findings={len(set(known_hits))} violations={len(vio_lines)} "
